@@ -25,10 +25,12 @@ PRIM_CONTRACT = [
 def run_worker(prop, which, N_quick, tier, seed, jobs, only=None, n_for=None):
     """Run mtsym/tokcheck in the tooling venv; returns (results, info)."""
     known = [k for k in load_known_findings().get("findings", []) if k.get("engine") == "mtsym" and prop in k.get("properties", [k.get("property")])]
-    # MT210 is the one type whose repetition cap (10 sequences) is within reach: 13 tokens; N = 14 in the thorough tier, and in
-    # the quick tier of the property that asks for it (n_for)
+    # MT210 is the one type whose repetition cap (10 sequences) is within reach: 13 tokens. Only a property whose queries do not
+    # depend on the cap asks for N = 14 (n_for; C01: "accepted => reproduced / in the layout"). The layout specification carries no
+    # caps, so for the accept-side properties (C03, C09, C14) an eleven-sequence MT210 would be "well-formed" to the oracle while
+    # the library rightly rejects it: they stay within N <= 12.
     req = {"which": which, "N": N_quick, "tier": tier, "seed": seed, "jobs": jobs, "known": known, "only": only,
-           "n_for": dict(n_for or {}) if tier == "quick" else {"MT210": 14}}
+           "n_for": dict(n_for or {})}
     code = (
         "import sys, json; sys.path.insert(0, %r); import tokcheck\n"
         "req = json.load(sys.stdin)\n"
